@@ -157,13 +157,15 @@ def onehop_reverse_guard_rule(F, R):
             break
     R.floor("SIB-onehop-guard", len(got), 3, "one-hop reversals with a recognised completeness guard")
     keys = {(v[0], v[1]) for v in got.values()}
-    ok = len(keys) == 1 and len(got) == 3
+    names = {v[0] for v in got.values()}
+    idxs = {v[1] for v in got.values() if v[1] is not None}
+    ok = len(names) == 1 and len(idxs) <= 1 and len(got) == 3        # an unrecognised index form is not a disagreement
     R.ob("SIB-onehop-guard", "view and model reversals of a one-hop path test the same field of the same hop: %s" % sorted(keys, key=str), ok or len(got) < 3, len(got) == 3,
          {"rule": "SIB-onehop-guard", "guards": {k: list(v[:2]) for k, v in got.items()}})
     if len(got) == 3 and not ok:
         major = max(keys, key=lambda k: sum(1 for v in got.values() if (v[0], v[1]) == k))
         for p, v in sorted(got.items()):
-            if (v[0], v[1]) != major:
+            if v[0] != major[0] or (v[1] is not None and major[1] is not None and v[1] != major[1]):
                 R.violation("SIB-onehop-guard", p + "/guard", "%s refuses an incomplete one-hop path by testing %s of hop %s while its siblings test %s of hop %s: "
                             "view and model disagree on Ok/Err for the same path (guard: %s)" % (p.rsplit("::", 2)[-2] + "::" + p.rsplit("::", 1)[-1], v[0], v[1], major[0], major[1], v[2][:160]), F.loc(p))
 
